@@ -337,8 +337,11 @@ emit_sos(j_compress_ptr cinfo)
      * but does not seem to be specified in the standard.
      */
 
-    /* DC needs no table for refinement scan */
-    td = cinfo->Ss == 0 && cinfo->Ah == 0 ? compptr->dc_tbl_no : 0;
+    /* DC needs no table for refinement scan.  (In lossless mode, Ss is the
+     * predictor selection value, and the DC table is always needed.)
+     */
+    td = cinfo->master->lossless || (cinfo->Ss == 0 && cinfo->Ah == 0) ?
+         compptr->dc_tbl_no : 0;
     /* AC needs no table when not present */
     ta = cinfo->Se ? compptr->ac_tbl_no : 0;
 
